@@ -127,10 +127,10 @@ Theorem delivered_prefix :
     let c := g_cap H pair_hash empty_leaf block_hash seg_hash UB ueb_hash ser_ueb key f in
     exists ws,
       read_plan (N.of_nat (length ct)) segsize guess offset size = SegDone ws /\
-      forall chunks ok,
-        serve H H_eqb pair_hash truthy block_hash seg_hash UB ueb_hash parse_ueb dec c (node_init H c) ws script = (chunks, ok) ->
+      forall chunks res,
+        serve H H_eqb pair_hash truthy block_hash seg_hash UB ueb_hash parse_ueb dec c (node_init H c) ws script = (chunks, res) ->
         (exists rest, py_slice ct offset size = concat chunks ++ rest) /\
-        (ok = true -> concat chunks = py_slice ct offset size).
+        (res = None -> concat chunks = py_slice ct offset size).
 Proof. exact delivered_prefix_ok. Qed.
 Print Assumptions delivered_prefix.
 
@@ -173,11 +173,11 @@ Proof. vm_compute. reflexivity. Qed.
 (* a whole read with share 0's blocks corrupted: shares 1 and 2 deliver the file *)
 Example ex_download_runs :
   sym_serve f3_dec f3_cap (sym_node_init f3_cap) [mk_write 0 0 2; mk_write 1 0 2; mk_write 2 0 1] f3_script
-  = ([[1; 2]; [3; 4]; [5]]%N, true).
+  = ([[1; 2]; [3; 4]; [5]]%N, None).
 Proof. exact f3_download_runs. Qed.
 
 (* with too few good shares nothing is delivered *)
 Example ex_download_fails_cleanly :
   sym_serve f3_dec f3_cap (sym_node_init f3_cap) [mk_write 0 0 2; mk_write 1 0 2; mk_write 2 0 1]
-            (fun _ => ([(0, f3_bad0, no_ord); (1, f3_share 1, no_ord)], [])) = ([], false).
+            (fun _ => ([(0, f3_bad0, no_ord); (1, f3_share 1, no_ord)], [])) = ([], Some ENotEnoughShares).
 Proof. exact f3_download_fails_cleanly. Qed.
